@@ -316,3 +316,42 @@ func zzH_C14_byteslice() {
 	}
 	zzverif.Reach("end")
 }
+
+// ---- pointer fields tagged rlp:"nil" (Transaction.Recipient on the wire) ----
+
+// the element's type information: a uint64 leaf (the generic type cache is outside the model)
+//
+//verif:replace $M/rlp.cachedTypeInfo1 zzC14UintInfo
+func zzC14UintInfo(typ reflect.Type, t tags) (*typeinfo, error) {
+	return &typeinfo{decoder: decodeUint, writer: writeUint}, nil
+}
+
+// zzH_C14_optptr: the decoder of an optional pointer accepts only canonical input: the
+// accepted value (nil or an element) re-encodes to exactly the consumed bytes.
+//
+//verif:replace $M/rlp.cachedTypeInfo1 zzC14UintInfo
+func zzH_C14_optptr() {
+	buf := zzverif.Bytes("b", zzverif.Choose("len", zzverif.Bound("Noptptr", 4, 10)+1))
+	var p *uint64
+	dec, derr := makeOptionalPtrDecoder(reflect.TypeOf(p))
+	if derr != nil {
+		zzverif.Assume(false)
+	}
+	err := dec(NewStream(bytes.NewReader(buf), 0), reflect.ValueOf(&p).Elem())
+	if err != nil {
+		zzverif.Reach("optptr-rejected")
+		return
+	}
+	var enc []byte
+	if p == nil {
+		zzverif.Reach("optptr-nil")
+		enc = []byte{0x80} // what the encoder writes for a nil pointer to a non-list type
+	} else {
+		zzverif.Reach("optptr-value")
+		enc = zzC14Enc(func(w *encbuf) error { return writeUint(reflect.ValueOf(p).Elem(), w) })
+	}
+	// known finding: the empty LIST (0xC0) is accepted as nil as well, for every element type
+	emptyList := len(buf) > 0 && buf[0] == 0xC0 && p == nil
+	zzverif.AssertKF(len(enc) <= len(buf) && bytes.Equal(enc, buf[:len(enc)]), "an accepted optional pointer re-encodes to exactly the consumed bytes (one encoding per value)", "C14-nil-tag-accepts-empty-list", emptyList)
+	zzverif.Reach("end")
+}
